@@ -44,6 +44,9 @@ type Hist[A any] struct {
 	MayDiverge func(hist []A) bool
 }
 
+// maxStatesPerShard bounds the memory of one worker (16 of them run at once).
+const maxStatesPerShard = 1500000
+
 type histNode[A any] struct {
 	hist []A
 }
@@ -106,6 +109,12 @@ func (h *Hist[A]) Explore() bool {
 						continue
 					}
 					seen[r.Digest] = true
+					if len(seen) > maxStatesPerShard {
+						// memory bound: the frontier holds one history per state
+						h.Rep.Exhaustive = false
+						h.Rep.Note(fmt.Sprintf("state cap of %d states per shard reached at depth %d; all histories of length < %d were covered", maxStatesPerShard, depth+1, depth+1))
+						return false
+					}
 				}
 				h.Rep.States++
 				// determinism self-test: the first states of every run are replayed a second
